@@ -44,6 +44,7 @@ def register(reg):
                                 '_mask': ('arr', 2, 'bool')})
     register_mask_images(reg)
     register_multiply(reg)
+    register_get_values(reg)
 
     # delegation to the bounding box: same contract, seen through self.bbox
     reg.add(Contract(
@@ -145,6 +146,56 @@ def register(reg):
                  ('error[slc_large].astype(float)**2', 'error[slc_large].astype(float)'),
                  ('error[slc_large].astype(float)**2', 'error[slc_large].astype(float)**2 * aper_weights')],
     ))
+
+
+def register_get_values(reg):
+    """ApertureMask.get_values(data, mask): the bag of weight * data over exactly the pixels of
+    the box that lie on the image, have positive weight and are not masked -- the *whole function*,
+    through the _get_overlap_cutouts contract (this is what LocalBackground, the profile classes and
+    the sigma-clipped statistics read)."""
+    DIS = DISJOINT.replace('shape[', 'data.shape[')
+    valid = [v.replace('shape[0]', 'data.shape[0]').replace('shape[1]', 'data.shape[1]')
+             if 'self.data.shape' not in v else v for v in VALID]
+    oy, ox = 'max(self.bbox.iymin, 0)', 'max(self.bbox.ixmin, 0)'
+    box = (f'(0, min(self.bbox.iymax, data.shape[0]) - {oy}), '
+           f'(0, min(self.bbox.ixmax, data.shape[1]) - {ox})')
+    w = f'self.data[j + {oy} - self.bbox.iymin, i + {ox} - self.bbox.ixmin]'
+    for tag, mspec, mcl, mreq in (
+            ('mask', ('arr', 2, 'bool', 'nonempty'), f' and not mask[j + {oy}, i + {ox}]',
+             ['mask.shape == data.shape']),
+            ('no-mask', ('const', None), '', [])):
+        reg.add(Contract(
+            target=f'{M}.get_values', props=['C02', 'C12', 'C19'], kind='method',
+            tag='overlap-' + tag,
+            params={'self': 'ApertureMask', 'data': ('arr', 2, 'real', 'nonfinite', 'nonempty'),
+                    'mask': mspec},
+            requires=valid + mreq + [f'not ({DIS})'],
+            ensures=[
+                ('domain', f'shape_of(result) == (min(self.bbox.iymax, data.shape[0]) - {oy}, '
+                           f'min(self.bbox.ixmax, data.shape[1]) - {ox})'),
+                ('selected-pixels-positive-weight-unmasked',
+                 f'forall(lambda j, i: iff(sel(result, j, i), {w} > 0{mcl}), {box})'),
+                ('values-are-weight-times-data',
+                 f'forall(lambda j, i: val(result, j, i) == {w} * data[j + {oy}, i + {ox}], '
+                 f'{box})'),
+            ],
+            mutants=([('(data[slc_large] * aper_weights)[pixel_mask]',
+                       '(data[slc_large] * aper_weights)[aper_weights > 0]')] if mcl else [])
+            + [('(data[slc_large] * aper_weights)[pixel_mask]',
+                      '(data[slc_large] * pixel_mask)[pixel_mask]'),
+                     ('data.shape, mask=mask)', 'data.shape, mask=None)') if mcl else
+                     ('(data[slc_large] * aper_weights)[pixel_mask]',
+                      '(data[slc_large] + aper_weights)[pixel_mask]')],
+        ))
+        reg.add(Contract(
+            target=f'{M}.get_values', props=['C02', 'C12', 'C19'], kind='method',
+            tag='disjoint-' + tag,
+            params={'self': 'ApertureMask', 'data': ('arr', 2, 'real', 'nonfinite', 'nonempty'),
+                    'mask': mspec},
+            requires=valid + mreq + [DIS],
+            ensures=[('empty', 'result.shape == (0,)')],
+            mutants=[('return np.array([])', 'return np.array([0.0])')],
+        ))
 
 
 def register_mask_images(reg):
